@@ -361,7 +361,15 @@ def same_location_pieces(rng, g):
         pieces[-1] += '\n'
     whole = ''.join(pieces)
     name = 's%d.js' % rng.randrange(0, 3)
-    content = whole if rng.random() < 0.8 else whole[:-1] + '#'
+    r0 = rng.random()
+    if r0 < 0.55:
+        content = whole
+    elif r0 < 0.85 and len(whole) > 2:
+        # the recorded content ends INSIDE the generated segment: text before a cut can equal the
+        # content up to its very end (no line break after it)
+        content = whole[:rng.randrange(1, len(whole))].rstrip('\n') or whole
+    else:
+        content = whole[:-1] + '#'
     kids = []
     for i, pc in enumerate(pieces):
         if rng.random() < 0.85:
